@@ -1096,7 +1096,12 @@ instance (rs : List (Outcome Out)) : Decidable (InContract rs) :=
     is given, whichever thread marks (the running thread's object, which `GC_Mark` hands over itself: `threadObj`; and any
     Thread object a variable holds: `Cell.thread`); Ref, Box, KCell and Tracked have no Mark instance and are scanned conservatively, word by word;
   * the two coincide only if every Mark instance covers everything the container holds: that is lemma `refs_fields`
-    (CelloProofs/Lemmas/CfgKeep.lean), and it is what a change like "Table_Mark walks `nitems` slots" falsifies. -/
+    (CelloProofs/Lemmas/CfgKeep.lean), and it is what a change like "Table_Mark walks `nitems` slots" falsifies;
+  * a holder may also be a ROOT: a container made with `new_root` whose variable lives in static storage, outside the collector's
+    view (`Slot.rooted`, operation `hnewRoot`).  Its variable is not among the stack words; what keeps it is the root flag of its
+    registry entry — `storedRoot`, computed from the regenerated members of `struct GCEntry` and the initialiser of `GC_Set_Ptr`
+    (which item feeds which member).  `RootWired` (the root argument arrives in the member `GC_Mark` / `GC_Sweep` test) is the
+    hypothesis of the collection lemmas; Props/C18.lean proves it for the source as it is (`C18_root_flag_reaches_collector_tests`). -/
 namespace Keep
 
 inductive Side where
@@ -1153,11 +1158,15 @@ def Cell.refs : Cell → List Nat
 
 abbrev KHeap := List (Nat × Cell)
 
-/-- a holder slot of the program (a variable in `main`'s frame: the collector finds it on the stack) -/
+/-- a holder slot of the program: a variable in `main`'s frame (the collector finds it on the stack) — or, `rooted`, a variable
+    in static storage / plain C memory that the collector does NOT scan, holding a container made with `new_root` (which is what
+    roots are for: `static var registry; … registry = new_root(Table, String, Int);`).  A rooted container is kept alive by the
+    root flag of its registry entry alone. -/
 structure Slot where
   h : Nat
   kind : Kind
   root : Option Nat        -- the container object; `none` for thread-local storage of the running thread
+  rooted : Bool := false   -- made with `new_root`, released with `del_root`; the variable is outside the collector's view
 deriving Repr
 
 structure KSt where
@@ -1226,9 +1235,58 @@ theorem addr_div (a : Nat) (h1 : a % 8 = 0) (h2 : 8 ≤ a) : addr (a / 8 - 1) = 
 theorem addr_inv (i : Nat) : addr i % 8 = 0 ∧ 8 ≤ addr i ∧ addr i / 8 - 1 = i := by
   unfold addr; omega
 
-/-- the collector's registry: every block of the heap, none of them a root entry (the program never calls `new_root`) -/
-def toHeap (s : KSt) : Cello.Heap.Heap where
-  lookup a := if a % 8 = 0 ∧ 8 ≤ a then (s.heap.lookup (a / 8 - 1)).map (fun c => ⟨toObj c, false⟩) else none
+/-! #### the root flag of a registry entry, as the source wires it (regenerated: `CelloGen.Cfg.gcEntry…`)
+
+  `alloc_by(type, ALLOC_ROOT)` → `set(current(GC), self, $I(1))` → `GC_Set` → `GC_Set_Ptr(gc, key, (bool)c_int(val))`, which builds
+  the entry with a brace initialiser `struct GCEntry entry = { ptr, ihash, root, 0 };`.  Which MEMBER an item of that initialiser
+  lands in is decided by the declaration order of `struct GCEntry` (positional items) or by its designator.  `GC_Sweep` spares an
+  unmarked entry iff the member `gcSweepSpares` is set; the root loop of `GC_Mark` starts from the entries whose member
+  `gcMarkRootTest` is set.  `storedRoot r` is the value these tests find in the entry registered with root argument `r`. -/
+
+/-- the items of the initialiser with which `GC_Set_Ptr` builds a new entry -/
+def setPtrInit : List (String × String) :=
+  match CelloGen.Cfg.gcEntryInits.find? (fun e => e.1 == "GC_Set_Ptr") with
+  | some e => e.2
+  | none => []
+
+/-- the expression that initialises member `m` of the entry `GC_Set_Ptr` builds: the item designated `.m = …`; in a purely
+    positional initialiser the item at the position `m` has in `struct GCEntry`; a member without an item is zero-initialised -/
+def entryInitExpr (m : String) : Option String :=
+  let items := setPtrInit
+  match items.find? (fun e => e.1 == m) with
+  | some e => some e.2
+  | none =>
+    if items.all (fun e => e.1 == "") then
+      match (CelloGen.Cfg.gcEntryMembers.map (·.1)).idxOf? m with
+      | some i => (items[i]?).map (·.2)
+      | none => none
+    else none
+
+/-- the third parameter of `GC_Set_Ptr`: the root argument -/
+def rootParam : String := CelloGen.Cfg.gcSetPtrParams.getD 2 "?"
+
+/-- value of a flag expression when the root argument is `r` (an absent item: zero) -/
+def evalFlag (r : Bool) : Option String → Bool
+  | none => false
+  | some e => if e = rootParam then r else e = "1" || e = "true"
+
+/-- what `GC_Sweep`'s test (`not entries[i].<gcSweepSpares>`) finds in an entry registered with root argument `r` -/
+def storedRoot (r : Bool) : Bool := evalFlag r (entryInitExpr CelloGen.Cfg.gcSweepSpares)
+/-- the mark bit a new entry starts with -/
+def storedMarked (r : Bool) : Bool := evalFlag r (entryInitExpr CelloGen.Cfg.gcSweepMarkBit)
+
+/-- **the root argument arrives in the member the collector tests** (decidable over the regenerated tables; proved in
+    CelloProofs/Props/C18.lean as part of `C18_root_flag_reaches_collector_tests`) -/
+def RootWired : Prop := storedRoot true = true
+instance : Decidable RootWired := by unfold RootWired; exact inferInstance
+
+/-- is block `i` a container the program made with `new_root` (and has not yet released with `del_root`) -/
+def isRooted (slots : List Slot) (i : Nat) : Bool := slots.any (fun sl => sl.rooted && sl.root == some i)
+
+/-- the collector's registry: every block of the heap; the entry of a rooted container carries the root flag as `w` says the
+    source stores it (`w true` for `new_root`, `w false` for `new`) -/
+def toHeapW (w : Bool → Bool) (s : KSt) : Cello.Heap.Heap where
+  lookup a := if a % 8 = 0 ∧ 8 ≤ a then (s.heap.lookup (a / 8 - 1)).map (fun c => ⟨toObj c, w (isRooted s.slots (a / 8 - 1))⟩) else none
   regs := s.heap.map (fun p => addr p.1)
   minptr := 0
   maxptr := addr s.next
@@ -1243,26 +1301,31 @@ def toHeap (s : KSt) : Cello.Heap.Heap where
         exact addr_div a hc.1 hc.2
     · cases he
 
+/-- … with the wiring of the source as it is now -/
+def toHeap (s : KSt) : Cello.Heap.Heap := toHeapW storedRoot s
+
 /-- the current thread as `GC_Mark` sees it: `mark(current(Thread), …)` → Thread_Mark → Table_Mark of the thread-local table
     (String ↦ Ref).  (Thread objects the program made itself are blocks of the heap: `Cell.thread`.) -/
 def threadObj (s : KSt) : Cello.Heap.Obj :=
   .thr "Thread" (.cont "Table" (s.tls.flatMap (fun e => [.raw "String" [], .raw "Ref" [addr e.2]])))
 
-/-- the words of `main`'s frame that are holder variables -/
-def stackWords (s : KSt) : List Nat := (s.slots.filterMap (·.root)).map addr
+/-- the words of `main`'s frame that are holder variables (a rooted holder's variable lives in static storage: not scanned) -/
+def stackWords (s : KSt) : List Nat := ((s.slots.filter (fun sl => !sl.rooted)).filterMap (·.root)).map addr
 
 /-- number of entries in the collector's registry -/
 def KSt.regCount (s : KSt) : Nat := s.heap.length + s.junk
 
-/-- **one collection**: `GC_Mark(gc); GC_Sweep(gc);` — unmarked blocks are finalised and freed -/
-def kcollect (s : KSt) : KSt :=
-  let r := Cello.Heap.collect Cello.Heap.listSet Cello.Heap.Cfg.current (toHeap s) (threadObj s) (stackWords s)
+/-- **one collection**: `GC_Mark(gc); GC_Sweep(gc);` — unmarked blocks without the root flag are finalised and freed -/
+def kcollectW (w : Bool → Bool) (s : KSt) : KSt :=
+  let r := Cello.Heap.collect Cello.Heap.listSet Cello.Heap.Cfg.current (toHeapW w s) (threadObj s) (stackWords s)
   let hp := s.heap.filter (fun p => !(r.2.contains (addr p.1)))
   { s with heap := hp, junk := 0, mitems := hp.length + hp.length / 2 + 1, collections := s.collections + 1 }
 
+def kcollect (s : KSt) : KSt := kcollectW storedRoot s
+
 /-! ### specification: what the program can still reach -/
 
-/-- the pointers held by holder variables and by thread-local storage -/
+/-- the pointers held by holder variables (on the stack or, rooted, in static storage) and by thread-local storage -/
 def KSt.roots (s : KSt) : List Nat := s.slots.filterMap (·.root) ++ s.tls.map (·.2)
 
 /-- **Reachable**: a live block a holder variable or a thread-local entry points to, or a live block that a reachable
@@ -1306,6 +1369,9 @@ def View.ids (v : View) : List Nat := v.sub.filterMap (fun p => p.2.map (fun _ =
 
 inductive KOp where
   | hnew (h : Nat) (k : Kind)
+  /-- `static var slot; … slot = new_root(<container>);` — the variable is outside the collector's view (op file: the kind letter
+      in upper case); released with `hdel` (`del_root`).  Not for thread-local storage / Thread objects. -/
+  | hnewRoot (h : Nat) (k : Kind)
   | hput (h : Nat) (k id pay : Int)
   | hget (h : Nat) (k : Int)
   | hrem (h : Nat) (k : Int)
@@ -1454,9 +1520,15 @@ def plan (op : KOp) (v : View) : Option (Upd × KOut) :=
   | .hnew h kind =>
     if h ≥ maxH || v.slots.any (fun s => s.h == h) then none else
     match kind with
-    | .tls => some ({ same with slots := ⟨h, kind, none⟩ :: v.slots }, .unit)
+    | .tls => some ({ same with slots := ⟨h, kind, none, false⟩ :: v.slots }, .unit)
     | _ => some ({ same with writes := [(v.next, some (emptyCell kind))], fresh := 1,
-                               slots := ⟨h, kind, some v.next⟩ :: v.slots }, .unit)
+                               slots := ⟨h, kind, some v.next, false⟩ :: v.slots }, .unit)
+  | .hnewRoot h kind =>
+    if h ≥ maxH || v.slots.any (fun s => s.h == h) then none else
+    match kind with
+    | .tls | .thread => none
+    | _ => some ({ same with writes := [(v.next, some (emptyCell kind))], fresh := 1,
+                               slots := ⟨h, kind, some v.next, true⟩ :: v.slots }, .unit)
   | .hput h k id pay =>
     if h ≥ maxH then none else
     match v.slots.find? (fun s => s.h == h) with
@@ -1649,7 +1721,10 @@ def plan (op : KOp) (v : View) : Option (Upd × KOut) :=
     if h ≥ maxH then none else
     match v.slots.find? (fun s => s.h == h) with
     | none => none
-    | some _ => some ({ same with slots := v.slots.filter (fun x => !(x.h == h)), tls := v.tls.filter (fun x => !(x.1.1 == h)) }, .unit)
+    | some s =>
+      -- forgetting the only pointer to a root leaks it in every build (a root entry is never swept): not a program the workload writes
+      if s.rooted then none else
+      some ({ same with slots := v.slots.filter (fun x => !(x.h == h)), tls := v.tls.filter (fun x => !(x.1.1 == h)) }, .unit)
   | .hdel h =>
     if h ≥ maxH then none else
     match v.slots.find? (fun s => s.h == h) with
@@ -1665,7 +1740,7 @@ def plan (op : KOp) (v : View) : Option (Upd × KOut) :=
       some ({ same with writes := ws, slots := v.slots.filter (fun x => !(x.h == h)), tls := v.tls.filter (fun x => !(x.1.1 == h)) }, .unit)
 
 def opHolder : KOp → Option Nat
-  | .hnew h _ | .hput h _ _ _ | .hget h _ | .hrem h _ | .hrel h _ | .hshrink h _ | .hreserve h _ | .hread h | .hdrop h | .hdel h
+  | .hnew h _ | .hnewRoot h _ | .hput h _ _ _ | .hget h _ | .hrem h _ | .hrel h _ | .hshrink h _ | .hreserve h _ | .hread h | .hdrop h | .hdel h
   | .hrun h => some h
   | .hchurn _ | .gc => none
 
@@ -1726,7 +1801,11 @@ def trackedIn (hp : KHeap) : List Int :=
     | .tracked ident _ _ => some ident
     | _ => none)
 
-/-- **process exit**: `GC_Del` sweeps everything that is still registered — only in a build that has the collector -/
+/-- **process exit**: `GC_Del` sweeps everything that is still registered — only in a build that has the collector.  (A container
+    made with `new_root` that the program has not released keeps its registry entry through `GC_Del` — root entries are never swept
+    — and is not destructed; everything it refers to is.  Containers have no observable destructor and the ledger lists `Tracked`
+    objects only, which are never root-registered (`hput` is the only operation that makes one), so the abstraction `heap := []`
+    yields the same ledger.) -/
 def kexit (cfg : Cfg) (s : KSt) : KSt :=
   if cfg.gc then { s with heap := [], junk := 0 } else s
 
